@@ -16,6 +16,7 @@ for m in sel:
     txt = txt.replace(m["old"], m["new"], 1)
     for a, b in m.get("also", []):
         txt = txt.replace(a, b)
+    txt += m.get("append", "")
     open(f, "w").write(txt)
     c = subprocess.run("cargo check --offline --lib 2>&1 | tail -3", shell=True, cwd=d, capture_output=True, text=True, env=dict(os.environ, CARGO_TARGET_DIR="/tmp/scr/benign-target"))
     compiles = "error" not in c.stdout
